@@ -10,7 +10,6 @@
 //! with a 1e-6 absolute allowance on probabilities (f32 backgrounds) and, for the *final* value
 //! only, the floating-point floor max(margin, 64 ulp(|s| + sum of row ranges)) on the score margin.
 
-use lightmotif::abc::Dna;
 use lightmotif::pwm::ScoringMatrix;
 use lightmotif_tfmpvalue::TfmPvalue;
 use serde_json::{json, Value};
@@ -64,7 +63,7 @@ fn fmt_steps(steps: &[Step]) -> Value {
 }
 
 /// Run one query against the real code and the oracle.
-pub fn check_query(mat: &Mat, pssm: &ScoringMatrix<Dna>, ex: &Exact, s: f64) -> QueryOutcome {
+pub fn check_query<A: lightmotif::abc::Alphabet>(mat: &Mat, pssm: &ScoringMatrix<A>, ex: &Exact, s: f64) -> QueryOutcome {
     let m = mat.width();
     let mut out = QueryOutcome { steps: Vec::new(), final_p: None, evals: 0, failures: Vec::new(), late: false };
     let cls = &mat.class;
@@ -264,7 +263,7 @@ pub fn run(ctx: &mut Ctx, rep: &mut Report) {
     let grid = format!(
         "queries per matrix: min-1, every distinct attainable score a (at most {} evenly ranked ones), a+1e-4, a+0.15, a-0.0151, midpoint to the next attainable score, max+1; \
          every refinement step of approximate_pvalue with g >= 1e-9 and the final pvalue(); oracle: brute-force tail over all K'^M words (K' = symbols with non-zero background), \
-         statement margins (M+1)g / (M+2)g, 1e-6 on probabilities; one evaluation = one (matrix, background, score, step) check; non-trivial = min < score < max",
+         statement margins (M+1)g / (M+2)g, 1e-6 on probabilities; every matrix whose background gives the wildcard no mass (quick: widths <= 4) is ALSO checked as a protein matrix carrying the same distribution (DNA columns at protein ranks 19, 2, 11, 6 with the DNA background counts, all other residues background 0 and copies of cells of their row, X = the DNA wildcard cell): same queries, same oracle; one evaluation = one (matrix, background, score, step) check; non-trivial = min < score < max",
         cap
     );
     rep.space("logodds", &format!("product: {} ; {}", exact::menu_text(&cfg.widths, &win, &cfg.pseudos), grid));
@@ -278,6 +277,8 @@ pub fn run(ctx: &mut Ctx, rep: &mut Report) {
         rep.space(e.space, "");
         let ex = Exact::new(&e.mat);
         let pssm = e.mat.scoring();
+        // quick tier: widths up to 4 (the protein loops are five times longer); thorough: every matrix
+        let prot = if ctx.quick() && e.mat.width() > 4 { None } else { e.mat.scoring_protein().map(|pp| (e.mat.as_protein_embedded(), pp)) };
         if ex.scores.len() > cap {
             capped_queries = true;
         }
@@ -294,6 +295,20 @@ pub fn run(ctx: &mut Ctx, rep: &mut Report) {
             }
             for f in &o.failures {
                 rep.violation(f.sig.clone(), f.msg.clone(), || case_json(&e.mat, s, kind, f.step, &o));
+            }
+            // the same distribution carried by a protein matrix (symbol loops to K-1 = 20; see Mat::scoring_protein)
+            if let Some((pm, pp)) = &prot {
+                let o = check_query(pm, pp, &ex, s);
+                for _ in 0..o.evals {
+                    rep.eval_distinct(nontrivial);
+                }
+                for f in &o.failures {
+                    rep.violation(f.sig.clone(), f.msg.clone(), || {
+                        let mut v = case_json(pm, s, kind, f.step, &o);
+                        v["embedding"] = json!("protein");
+                        v
+                    });
+                }
             }
             if e.mat.width() == 3 && kind == "attainable + 1e-4" && qi > 10 {
                 rep.sample_space(2, || {
@@ -328,12 +343,26 @@ pub fn replay(_ctx: &mut Ctx, rep: &mut Report, case: &Value) {
     };
     let kind = case["query_kind"].as_str().unwrap_or("replay").to_string();
     let ex = Exact::new(&mat);
-    let pssm = mat.scoring();
-    let o = check_query(&mat, &pssm, &ex, s);
+    let protein = case["embedding"].as_str() == Some("protein");
+    let o = if protein {
+        let pm = mat.as_protein_embedded();
+        let pp = mat.scoring_protein().expect("protein embedding of a background with wildcard mass");
+        check_query(&pm, &pp, &ex, s)
+    } else {
+        let pssm = mat.scoring();
+        check_query(&mat, &pssm, &ex, s)
+    };
+    let mat = if protein { mat.as_protein_embedded() } else { mat };
     for _ in 0..o.evals.max(1) {
         rep.eval_distinct(true);
     }
     for f in &o.failures {
-        rep.violation(f.sig.clone(), f.msg.clone(), || case_json(&mat, s, &kind, f.step, &o));
+        rep.violation(f.sig.clone(), f.msg.clone(), || {
+            let mut v = case_json(&mat, s, &kind, f.step, &o);
+            if protein {
+                v["embedding"] = json!("protein");
+            }
+            v
+        });
     }
 }
